@@ -19,6 +19,7 @@ RULE = (
     "with declared inputs comes from one of them or from nowhere; <= 1 move per step (every placement assignment "
     "is recorded by a harness subclass of BaseComponent); no move while one of its tasks is WORKING; components "
     "whose top-level component has all tasks FINISHED are unplaced; facilities held by a task belong to the "
+    "One spec in three has lived before (warm start): another model edited in place into this one or swapped into the old project object, or the model's own run cut short by max_time and then continued with one of the unequal initialize-flag combinations (state carried over and logs restarted, or state reset and logs appended), or a first run that does not initialize the logs. "
     "workplace where its component is placed. Non-trivial = two components competed for a workplace whose "
     "capacity admits fewer, or a conveyor hop was taken; distinct by spec hash."
 )
@@ -30,7 +31,7 @@ TECHNIQUE = "property-based testing (Hypothesis): generated products/workplaces,
 LEVEL_TEXT = "Generated-input search with placement invariants at every step; nested products only on the restricted profile N; not a proof."
 LEVEL_NOTE = "Trusts the step observer and a harness subclass of BaseComponent that records set_placed_workplace calls (no change to pDESy)."
 
-CFG_F = gen.Cfg(warm=4, facilities=True, max_tasks=7, min_comps=1, max_comps=5, min_wps=1, max_wps=4, max_time=[40], p_auto=6,
+CFG_F = gen.Cfg(warm_modes=["morph", "graft", "carry", "append", "nolog"], warm=3, facilities=True, max_tasks=7, min_comps=1, max_comps=5, min_wps=1, max_wps=4, max_time=[40], p_auto=6,
                 work_pool=[0.0, 0.5, 1.0, 1.0, 2.0, 3.0], kinds=[0, 0, 0, 1, 2, 3])
 CFG_N = CFG_F.copy(nested="assembly", inputs=False)
 
@@ -303,7 +304,8 @@ def check(spec):
             per_step_assign[-1] = {c.ID: list(getattr(c, "_assignments", [])) for c in h.comps}
 
     obs = Observer(phases=("updated", "allocated", "recorded"), extra=extra).install(p)
-    S.simulate(p, spec["opts"])
+    t0 = getattr(h, "t0", 0)  # "append" warm start: the logs begin with the t0 steps of the earlier, cut-short run
+    S.simulate(p, spec["opts"], **getattr(h, "sim_extra", {}))
     Observer.uninstall(p)
 
     comps = spec["comps"]
@@ -403,8 +405,8 @@ def check(spec):
                 if any(i in w["targets"] for w in spec["wps"]) and any(v for v in alloc["wps"].values()):
                     competed = True
     # logs agree with the live placement
-    for k in range(len(p.cost_list)):
-        rec = obs.steps[k]["recorded"]
+    for k in range(t0, len(p.cost_list)):
+        rec = obs.steps[k - t0]["recorded"]
         for ci, c in enumerate(h.comps):
             if c.placed_workplace_id_record[k] != rec["comps"][c.ID][1]:
                 res.fail("C13.log_component", "component %s placement log[%d]=%s, live %s" % (c.ID, k, c.placed_workplace_id_record[k], rec["comps"][c.ID][1]))
